@@ -90,7 +90,7 @@ impl Prop for C17 {
         "An animation-set file (meta None/Some, clip table of exactly 257 optional names, 0..=6 (40 in thorough) sets each with an optional label (never the reserved AnimClipNameTable) and a present/absent pattern over 256 slots: \
          empty, single slot, only bit 31 of a group, dense, alternating groups, random; names Shift-JIS-lossless incl. the empty string) is serialized, parsed with BinArchive::from_bytes + ASetFile::from_archive and compared field by field; \
          re-serializing the re-read value must give identical bytes; the data size reported by the independent reader must be 12 + 4*257 + sum over sets of 4*(1 + groups present + names present). Large files with 255/256/257 fully populated sets (just below and above 65 536 strings). Bounded-exhaustive: every single slot 0..=255 alone, \
-         bit 31 alone in each group, and empty / unlabelled sets in every position of a 3-set file. 1 case in 100 has 260..=700 sets; names come from the shared pool (which holds proper endings / beginnings of other pool strings) and 1 in ~300 is up to 36 KiB long. The re-read value is then edited through its public fields (first set / spec moved to the end, meta, one clip name or the header flags changed) and must round-trip again (edited-value-round-trip). Non-trivial: >= 1 set with >= 1 present slot and >= 1 entirely absent group, or an empty set. Distinct = distinct case value."
+         bit 31 alone in each group, and empty / unlabelled sets in every position of a 3-set file. 1 case in 100 has 260..=700 sets; names come from the shared pool (which holds proper endings / beginnings of other pool strings) and 1 in ~300 is up to 36 KiB long. The re-read value is then edited through its public fields (first set / spec moved to the end, meta, one clip name or the header flags changed) and must round-trip again (edited-value-round-trip). One case in three is preceded on the same thread by a serialization that fails (the same file plus a set holding an unencodable name; outcome ignored). Non-trivial: >= 1 set with >= 1 present slot and >= 1 entirely absent group, or an empty set. Distinct = distinct case value."
             .into()
     }
     fn assumptions() -> Vec<String> {
@@ -165,6 +165,14 @@ impl Prop for C17 {
 
     fn run(case: &Case, cx: &mut Cx) {
         let a = to_aset(case);
+        // one case in three is preceded, on this thread, by the serialization of the same file with an unencodable name in its last set
+        // (fails part-way; outcome ignored)
+        if (case.sets.len() + case.clips.len()) % 3 == 0 && case.dense == 0 {
+            let mut bad = to_aset(case);
+            bad.sets.push(vec![Some(super::prior::UNENCODABLE.to_string())]);
+            super::prior::quiet(|| bad.serialize().is_ok());
+            cx.label("after-a-failed-serialize-on-this-thread");
+        }
         let bytes = match cx.call(|| a.serialize()) {
             Some(Ok(b)) => b,
             Some(Err(e)) => {
